@@ -22,6 +22,7 @@ type build struct {
 	modPath   string
 	instr     instrReport
 	skipTests bool
+	zoneinfo  string
 }
 
 type instrReport struct {
@@ -200,5 +201,39 @@ func (b *build) run() error {
 		return &buildError{"worker build", out, err}
 	}
 	b.worker = filepath.Join(wdir, "worker")
+	b.zoneinfo = buildZoneDB(filepath.Join(b.scratch, "zoneinfo"))
 	return nil
+}
+
+// buildZoneDB creates the simulated zone database directory the workers get as
+// $ZONEINFO: intact copies of real zone files under names the system database
+// does not have (so a lookup cannot fall back to the system copy), plus an
+// empty, a truncated and a garbage file. Names that are absent are "missing".
+func buildZoneDB(dir string) string {
+	var src string
+	for _, c := range []string{"/usr/share/zoneinfo", "/usr/share/lib/zoneinfo", "/usr/lib/locale/TZ"} {
+		if _, err := os.Stat(filepath.Join(c, "Asia", "Shanghai")); err == nil {
+			src = c
+			break
+		}
+	}
+	os.MkdirAll(filepath.Join(dir, "Sim"), 0o755)
+	if src == "" {
+		return dir
+	}
+	for name, real := range map[string]string{"Shanghai": "Asia/Shanghai", "NewYork": "America/New_York", "LordHowe": "Australia/Lord_Howe", "Kathmandu": "Asia/Kathmandu"} {
+		copyFile(filepath.Join(src, real), filepath.Join(dir, "Sim", name))
+	}
+	os.WriteFile(filepath.Join(dir, "Sim", "Empty"), nil, 0o644)
+	if b, err := os.ReadFile(filepath.Join(src, "America", "New_York")); err == nil {
+		os.WriteFile(filepath.Join(dir, "Sim", "Torn"), b[:len(b)*2/5], 0o644)
+	}
+	g := make([]byte, 700)
+	x := uint32(12345)
+	for i := range g {
+		x = x*1664525 + 1013904223
+		g[i] = byte(x >> 24)
+	}
+	os.WriteFile(filepath.Join(dir, "Sim", "Garbage"), g, 0o644)
+	return dir
 }
